@@ -12,6 +12,8 @@ def node(el, strip_ws=True):
     text = el.text
     if strip_ws and text is not None and kids and not text.strip():
         text = None
+    if text == "":
+        text = None          # <a></a> and <a/> are the same document
     attrs = sorted(([qn(k), v] for k, v in el.attrib.items()), key=lambda p: (p[0][0] or "", p[0][1]))
     return {"t": qn(el.tag), "a": attrs, "x": text, "k": kids}
 
